@@ -77,7 +77,19 @@ def order(ctx: Ctx):
             it = XS
             loop = F
     if it is None:
-        raise AnalysisError("perform_vehicle_state_updates: no fold applying step_vehicle to the vehicles was recognised")
+        folds = rules.recognise_folds(fn)
+        if len(folds) == 1:
+            # another reducer (e.g. the update inlined into a local function): the order it visits is still the question
+            # here; whether it threads its state is the fold-threading rule's (below)
+            F, XS, INIT = folds[0]
+            it, loop = XS, F
+            ctx.info("D1", "ORD.queue-order", "the vehicle-update fold does not go through step_vehicle; its reducer is judged by the fold-threading rule", fn, F,
+                     why=flow.dump(rules.reducer_expr(repo, fn, F))[:160])
+            if flow.dump(INIT) != s0:
+                ctx.violation("D1", "ORD.queue-order", "the vehicle-update fold starts from the state it was given", fn, INIT,
+                              why=f"starts from {flow.dump(INIT)[:80]}", construct="perform_vehicle_state_updates:init")
+        else:
+            raise AnalysisError("perform_vehicle_state_updates: no fold over the vehicles was recognised")
     src_ok = lambda d: d in (f"tuple({s0}.vehicles.values())", f"{s0}.vehicles.values()", f"{s0}.get_vehicles()", f"tuple({s0}.get_vehicles())")
     recognised = False
     # shape A: helper(_sort_by_vehicle_state)(all vehicles)
